@@ -5,7 +5,8 @@
    numbers < 16, 256-colour indices < 256 ([color_ok]).  A model result [None]
    means "the Rust code would panic / overflow". *)
 From Coq Require Import ZArith NArith List Bool.
-From AV Require Import Generated.Palette Spec.Lossy Model.Base Model.Lossy Proofs.Lossy.
+From AV Require Import Generated.Palette Spec.Lossy Model.Base Model.Lossy Proofs.Lossy
+  Generated.LossyFn Proofs.LossyGen.
 Import ListNotations.
 Local Open Scope N_scope.
 
@@ -112,3 +113,48 @@ Proof. exact argmin_lowest_correct. Qed.
 
 Theorem c10_shipped_palettes_ok : palette_ok vga /\ palette_ok win10_console.
 Proof. exact shipped_palettes_ok. Qed.
+
+(* ---- the tie by translation --------------------------------------------------------- *)
+
+(* Generated/LossyFn.v is written on every run by tools/gen_fn_lossy.py (tools/rs2v) from the
+   Rust sources of distance, find_xterm_match, Palette::{find_match, get, rgb_from_index, ...},
+   rgb_to_ansi / rgb_to_xterm / xterm_to_rgb / xterm_to_ansi / color_to_{rgb,xterm,ansi} and
+   the accessors of anstyle they call (RgbColor::{r,g,b}, Ansi256Color::{index, into_ansi,
+   from_ansi}); each computes exactly what the hand model -- the subject of every theorem
+   above -- computes, for ALL inputs (in range or not), a panic ([None]) included. *)
+Theorem c10_translated_distance_is_model :
+  forall c1 c2, g_distance c1 c2 = distance c1 c2.
+Proof. exact g_distance_eq. Qed.
+
+Theorem c10_translated_find_xterm_match_is_model :
+  forall c, g_find_xterm_match c = find_xterm_match c.
+Proof. exact g_find_xterm_match_eq. Qed.
+
+Theorem c10_translated_find_match_is_model :
+  forall p c, g_find_match p c = find_match p c.
+Proof. exact g_find_match_eq. Qed.
+
+Theorem c10_translated_palette_reads_are_model :
+  forall p a i,
+    g_palette_get p a = palette_get p a /\ g_palette_index p a = palette_index p a /\
+    g_rgb_from_index p i = rgb_from_index p i.
+Proof. exact translated_palette_reads. Qed.
+
+Theorem c10_translated_xterm_is_model :
+  forall i p, g_xterm_to_rgb i p = xterm_to_rgb i p /\ g_xterm_to_ansi i p = xterm_to_ansi i p.
+Proof. exact translated_xterm. Qed.
+
+Theorem c10_translated_lossy_is_model :
+  forall col p,
+    g_color_to_rgb col p = color_to_rgb col p /\
+    g_color_to_xterm col = color_to_xterm col /\
+    g_color_to_ansi col p = color_to_ansi col p.
+Proof. exact translated_lossy_is_model. Qed.
+
+(* hence the translated code computes the specification on the domain of C10 *)
+Theorem c10_translated_lossy_is_spec :
+  forall col p, color_ok col -> palette_ok p ->
+    g_color_to_rgb col p = spec_to_rgb p col /\
+    g_color_to_xterm col = spec_to_xterm col /\
+    g_color_to_ansi col p = spec_to_ansi p col.
+Proof. exact translated_lossy_is_spec. Qed.
